@@ -1321,10 +1321,12 @@ def wrap_ra_diff(dra):
             return dra
 
         while dra < -180.0:
-            dra += 360.0
+            dra = dra + 360.0
         while dra > 180.0:
-            dra -= 360.0
+            dra = dra - 360.0
     else:
+        # wrap a copy: the caller's array must stay as it is
+        dra = np.array(dra, copy=True)
         msk_finite = np.isfinite(dra)
         msk = (dra < -180.0) & msk_finite
         while np.any(msk):
